@@ -146,8 +146,8 @@ func main() {
 	// ---- B. hand-assembled from the documented layout
 	const (
 		NOP, RET, PRINT, SETLOCAL, GETLOCAL, DEFBLOCK, ENDBLOCK, SETFIELD, GETFIELD, CONST = bcfmt.OpNOP, bcfmt.OpRET, bcfmt.OpPRINT, bcfmt.OpSETLOCAL, bcfmt.OpGETLOCAL, bcfmt.OpDEFBLOCK, bcfmt.OpENDBLOCK, bcfmt.OpSETFIELD, bcfmt.OpGETFIELD, bcfmt.OpCONST
-		NIL, ZERO, ONE, TRUE, FALSE, NOT, EQ, LT, GT, ADD, SUB, MUL, DIV, NEG, UNPLUS         = bcfmt.OpNIL, bcfmt.OpZERO, bcfmt.OpONE, bcfmt.OpTRUE, bcfmt.OpFALSE, bcfmt.OpNOT, bcfmt.OpEQ, bcfmt.OpLT, bcfmt.OpGT, bcfmt.OpADD, bcfmt.OpSUB, bcfmt.OpMUL, bcfmt.OpDIV, bcfmt.OpNEG, bcfmt.OpUNPLUS
-		JUMP, LOOP, JFALSE, POP, POPN, BIND                                                   = bcfmt.OpJUMP, bcfmt.OpLOOP, bcfmt.OpJFALSE, bcfmt.OpPOP, bcfmt.OpPOPN, bcfmt.OpBIND
+		NIL, ZERO, ONE, TRUE, FALSE, NOT, EQ, LT, GT, ADD, SUB, MUL, DIV, NEG, UNPLUS      = bcfmt.OpNIL, bcfmt.OpZERO, bcfmt.OpONE, bcfmt.OpTRUE, bcfmt.OpFALSE, bcfmt.OpNOT, bcfmt.OpEQ, bcfmt.OpLT, bcfmt.OpGT, bcfmt.OpADD, bcfmt.OpSUB, bcfmt.OpMUL, bcfmt.OpDIV, bcfmt.OpNEG, bcfmt.OpUNPLUS
+		JUMP, LOOP, JFALSE, POP, POPN, BIND                                                = bcfmt.OpJUMP, bcfmt.OpLOOP, bcfmt.OpJFALSE, bcfmt.OpPOP, bcfmt.OpPOPN, bcfmt.OpBIND
 	)
 	{
 		x := newFile("loop.bcl", "LOOP: counts a local up to 3 with a backward jump, NOPs in between")
@@ -386,13 +386,24 @@ func main() {
 		}
 		a.Op(NIL)
 		a.PatchJump(j, a.Len())
-		a.Op(PRINT) // prints false (jump taken: the value stays) 
+		a.Op(PRINT) // prints false (jump taken: the value stays)
 		a.Op(TRUE)
 		j = a.Len()
 		a.Op(JFALSE, 0).Op(POP).Op(CONST, s)
 		a.PatchJump(j, a.Len())
 		a.Op(PRINT).Op(RET)
 		record("hand_farjfalse.bcb", "hand-assembled", x.desc, x.bytes(), true, "jfalse_0x8001")
+	}
+	{
+		x := newFile("latebind.bcl", "BIND whose block-type constant has index 300 (a two-byte uvarint operand), DEFBLOCK and SETFIELD with such indices too")
+		a := &x.a
+		for i := 0; i < 300; i++ {
+			x.k(bcfmt.Int(int64(5000 + i)))
+		}
+		tT, empty, f := x.k(bcfmt.Str("late")), x.k(bcfmt.Str("")), x.k(bcfmt.Str("field"))
+		a.Op(DEFBLOCK, tT, empty).Op(CONST, 299).Op(SETFIELD, f).Op(POP).Op(ENDBLOCK)
+		a.Op(BIND, tT, bcfmt.BindStruct|bcfmt.BindOne).Op(RET)
+		record("hand_latebind.bcb", "hand-assembled", x.desc, x.bytes(), true, "bind_2B_operand")
 	}
 	{
 		x := newFile("nopos.bcl", "a file whose positions and line tables are empty (their counts are independent of the code length)")
